@@ -476,11 +476,19 @@ func (r *Reader) ReadDotLines() ([]string, error) {
 //	}
 //
 func (r *Reader) ReadMIMEHeader() (MIMEHeader, error) {
-	header, _, err := r.ReadMIMEHeaderAndKeys()
+	header, _, err := r.readMIMEHeaderAndKeys(false)
 	return header, err
 }
 
+// ReadMIMEHeaderAndKeys is like ReadMIMEHeader but also returns the keys in their
+// original order. It is used for HTTP request headers and is strict about field
+// names (RFC 7230 section 3.2: field-name is a non-empty token directly followed
+// by the colon); a line with any other name is an error.
 func (r *Reader) ReadMIMEHeaderAndKeys() (MIMEHeader, MIMEKeys, error) {
+	return r.readMIMEHeaderAndKeys(true)
+}
+
+func (r *Reader) readMIMEHeaderAndKeys(strictKey bool) (MIMEHeader, MIMEKeys, error) {
 	// Avoid lots of small slice allocations later by allocating one
 	// large one ahead of time which we'll cut up into smaller
 	// slices. If this isn't big enough later, we allocate small ones.
@@ -495,6 +503,16 @@ func (r *Reader) ReadMIMEHeaderAndKeys() (MIMEHeader, MIMEKeys, error) {
 
 	m := make(MIMEHeader, hint)
 	mkeys := make(MIMEKeys, 0, hint)
+
+	// The first line cannot start with a leading space (RFC 7230 section 3).
+	if buf, err := r.R.Peek(1); err == nil && (buf[0] == ' ' || buf[0] == '\t') {
+		line, err := r.readLineSlice()
+		if err != nil {
+			return m, mkeys, err
+		}
+		return m, mkeys, ProtocolError("malformed MIME header initial line: " + string(line))
+	}
+
 	for {
 		kv, err := r.readContinuedLineSlice()
 		if len(kv) == 0 {
@@ -505,6 +523,16 @@ func (r *Reader) ReadMIMEHeaderAndKeys() (MIMEHeader, MIMEKeys, error) {
 		i := bytes.IndexByte(kv, ':')
 		if i < 0 {
 			return m, mkeys, ProtocolError("malformed MIME header line: " + string(kv))
+		}
+		if strictKey {
+			if i == 0 {
+				return m, mkeys, ProtocolError("malformed MIME header line: " + string(kv))
+			}
+			for _, c := range kv[:i] {
+				if !validHeaderFieldByte(c) {
+					return m, mkeys, ProtocolError("malformed MIME header line: " + string(kv))
+				}
+			}
 		}
 		key := canonicalMIMEHeaderKey(kv[:i])
 
